@@ -155,7 +155,7 @@ func namesFor(c *pki.Cert) []string {
 // Revocation sets
 // ---------------------------------------------------------------------------
 
-var ghost = pki.Node{Subject: "c12 absent issuer", Key: "c12-absent", CA: true, PathLen: -1}         // issues the leaf whose issuer is unknown
+var ghost = pki.Node{Subject: "c12 absent issuer", Key: "c12-absent", CA: true, PathLen: -1}           // issues the leaf whose issuer is unknown
 var unrelated = pki.Node{Subject: "c12 unrelated issuer", Key: "c12-unrelated", CA: true, PathLen: -1} // issues nothing that is verified: the "other" issuer / key of the revocation sets
 var freshLeaf = pki.Node{Subject: "c12 fresh leaf", Key: "c12-fresh", CA: false, PathLen: -1}
 
@@ -342,11 +342,11 @@ func sameKeys(a, b map[string]bool) bool {
 
 type resultDump struct {
 	Current, Expired, Never, ValidAtExpiration [][]string
-	Parents                                   []string
-	ExpiredFlag                               bool
-	Type                                      string
-	NameError                                 string
-	InRevocationSet                           bool
+	Parents                                    []string
+	ExpiredFlag                                bool
+	Type                                       string
+	NameError                                  string
+	InRevocationSet                            bool
 }
 
 func (k *caseT) dump(res *verifier.VerificationResult) resultDump {
